@@ -175,7 +175,8 @@ func init() {
 		ID: "C06",
 		Explanation: "Structural necessary conditions of 'every request ends exactly once; closing never hangs; streams never leak', decided on every path of the CFG of (*Conn).exec/recv/closeWithError/serve, of every send on a call's response channel, of every goroutine loop and of every stop-handshake in the package: " +
 			"R1 after registration every exit of exec receives the response or closes call.timeout (at most once); R2 every send on callReq.resp is a select case with a sibling receive on the same call's timeout and is made without c.mu; R3 the caller's wait has timer, caller-context and connection-context siblings; " +
-			"R4 close protocol (test-and-set of closed in one critical section, calls swapped to nil in it, cancel then socket close on every later path, serve always closes, failed writes close or release); R5 the response path releases the stream unless the connection is closed, and abandonment paths do not; R6 stream-observer callbacks only inside the Once; R7 unknown stream id consumes the body; R8 a goroutine that is stopped by a bare blocking send on a quit channel never returns from its loop without receiving from that channel; R9 every goroutine loop has a quit/ctx case that returns.",
+			"R4 close protocol (test-and-set of closed in one critical section, calls swapped to nil in it, cancel then socket close on every later path, serve always closes, failed writes close or release); R5 the response path releases the stream unless the connection is closed, and abandonment paths do not; R6 stream-observer callbacks only inside the Once; R7 unknown stream id consumes the body; R8 a goroutine that is stopped by a bare blocking send on a quit channel never returns from its loop without receiving from that channel; R9 every goroutine loop has a quit/ctx case that returns." +
+			" R11 = C07.R2 (semaphore released exactly once on every exit), R12 = C08.R2 (ids claimed and released by compare-and-swap on a freshly loaded word), R13 a receiver field that is captured into a local and cleared is cleared in the critical section that captured it.",
 		NotDecided: "that completion happens within a bounded time; absence of lost wake-ups for every three-goroutine interleaving; exact stream counts under races (schedule-quantified clauses).",
 		Rules: []*Rule{
 			{ID: "C06.R1", Floor: 6, Doc: "exec: every exit after a successful addCall has received from call.resp or executed close(call.timeout); close(call.timeout) at most once per path", Run: c06r1},
